@@ -155,7 +155,8 @@ def parse_mir(text, vtext=None, crate=None):
         text = annotate_closures(text, vtext)
     bodies = {}
     # one-line constants:  const path::NAME: u32 = const 64_u32;
-    for m in re.finditer(r'^const (\S.*?): ([^=]+?) = const (.+);$', text, flags=re.M):
+    # (the name may contain `<impl at file.rs:13:14: 13:19>`: split at the LAST `: ` before ` = const`)
+    for m in re.finditer(r'^const (\S.*): ((?:(?!: )[^=])+?) = const (.+);$', text, flags=re.M):
         b = Body(m.group(1), m.group(0)); b.ret = m.group(2); b.crate = crate
         b.blocks = {'bb0': (['_0 = const %s;' % m.group(3)], 'return;')}
         bodies.setdefault(b.name, b)
